@@ -1,12 +1,14 @@
 """C23 — chunk normalisation and rechunking are exact.
 
-Model:    lean/DaskModel/Model/Chunks.lean (K4: normalize_chunks / blockdims_from_blockshape,
-          _breakpoints / _intersect_1d / old_to_new, divide_to_width, merge_to_number fast path,
-          estimate_graph_size)
+Model:    lean/DaskModel/Model/Chunks.lean (K4: normalize_chunks / blockdims_from_blockshape, _breakpoints /
+          _intersect_1d / old_to_new, divide_to_width, estimate_graph_size), Model/ChunksAuto.lean (auto_chunks, both
+          branches; floats observed), Model/ChunksPlanner.lean (merge_to_number incl. the heap path,
+          find_split_rechunk, find_merge_rechunk, the plan_rechunk loop; candidate order observed; planLocate/ndLocate)
 Theorems: lean/DaskModel/Props/C23.lean
-Tie:      function-level diffs of the modelled functions, property oracles on the real outputs
-          (normalize_chunks post-condition incl. the byte limit of auto chunks, every stage of
-          every real plan is a valid chunking), API-level rechunk vs NumPy and vs the Lean `rechunk1d`.
+Tie:      function-level diffs of every modelled function (auto_chunks through a line tracer that reads the floats
+          of the real call, plan_rechunk / find_merge_rechunk / find_split_rechunk through wrappers and a profile
+          hook), property oracles on the real outputs, API-level rechunk vs NumPy and vs the Lean `rechunk1d`,
+          several rechunks of one source in one graph (task names must depend on the target chunks).
 """
 from __future__ import annotations
 
@@ -21,29 +23,52 @@ READY = True
 DRIVER = "dm_chunks"
 LEAN_MODULES = ["DaskModel.Props.C23"]
 CASE_TIMEOUT_S = 20
-LEVEL_TEXT = ("Lean 4 theorems over a transliteration of normalize_chunks / blockdims_from_blockshape and of the rechunk "
-              "kernels. normalize: normalize_sum_nonneg (whatever normalize_chunks returns is, per dimension, a non-empty "
-              "tuple of non-negative sizes adding up to the shape - no hypothesis on the spec), normalize_sum_pos (positive "
-              "sizes or exactly (0,), for int/-1/None/dict/byte-string/auto entries; explicit tuples must themselves be "
-              "positive). rechunk: intersect1d_covers (for every pair of positive chunkings of equal length the "
-              "_intersect_1d state machine over the merged breakpoints returns, per new chunk, in-order non-empty pieces "
-              "inside their old chunks covering exactly its global range - proved by a loop invariant, no size bound), "
-              "rechunk_identity / rechunk_values_unchanged (slice+concatenate as _compute_rechunk = the new chunking of the "
-              "unchanged data), plan_compose (any sequence of valid stages composes to the last stage over unchanged data), "
-              "divide_to_width_spec, merge_homogeneous_spec. auto_chunks is abstracted to its returned tuple (post-condition "
-              "and byte limit validated on every real output); the planner's choice of stages is validated (every real stage "
-              "is checked to be a valid chunking, the hypothesis of plan_compose); n-d rechunk = product of the per-axis "
-              "plans (validated against NumPy).")
-LEVEL_NOTE = ("Trusted: Lean kernel + standard axioms; the correspondence harness (auto_chunks observed through a wrapper); "
-              "NumPy getitem/concatenate on single blocks; float heuristics of auto_chunks / find_merge_rechunk are not modelled. "
-              "Known finding: with previous_chunks auto chunks may exceed the limit by array.chunk-size-tolerance (documented).")
-TECHNIQUE = "Lean 4 proof (induction over chunk lists / the breakpoint merge) + differential correspondence"
+LEVEL_TEXT = ("Lean 4 theorems over transliterations of normalize_chunks / blockdims_from_blockshape / auto_chunks and of the "
+              "rechunk kernels and planner. PROVED FOR ALL INPUTS: normalize_sum_nonneg, normalize_sum_pos (positive sizes or "
+              "exactly (0,), adding up to the shape; explicit tuples must themselves be positive), auto_chunks_post + "
+              "normalize_sum_pos_auto (the modelled auto_chunks - both branches, every value of its floating-point "
+              "quantities - returns one entry per dimension, no negative size, tuples positive or (0,): no hypothesis about "
+              "auto_chunks is left in the first sentence of the statement), auto_noprev_within_limit (branch without "
+              "previous_chunks: if one element fits next to the explicit dimensions and int(size)^k*itemsize*largest_block <= "
+              "limit at every recursion level, the largest block is within the byte limit; invariant over the recursion), "
+              "intersect1d_covers (loop invariant of the _intersect_1d state machine, no size bound), rechunk_identity / "
+              "rechunk_values_unchanged, rechunk_locate (element level), rechunk_nd_exact / rechunk_nd_values (n-d: every "
+              "element of every new block is read from an existing old element with the same global index on every axis), "
+              "merge_to_number_spec (all paths incl. the heap loop with lazy deletion: same total, positive, exactly "
+              "max_number chunks), divide_to_width_spec, find_split_valid, find_merge_valid, plan_rechunk_stages_valid "
+              "(every stage of every plan is a valid chunking of the shape and the plan ends with the target, for every "
+              "threshold / byte limit / candidate order), plan_compose, plan_rechunk_exact (executing the modelled plan "
+              "stage by stage yields exactly the requested chunks over unchanged data). VALIDATED ONLY: the byte limit "
+              "with previous_chunks (false as stated: documented tolerance, known finding), termination of the auto_chunks "
+              "fix-point loop, of merge_to_number's heap loop (fuel) and of plan_rechunk's loop (observed), the float "
+              "arithmetic itself (k-th root, log-ratio sort key, int(a*b/c)), _balance_chunksizes (sum/positivity oracle), "
+              "the graph construction of _compute_rechunk (keys, getitem/concatenate_shaped per axis) - checked at API level "
+              "against NumPy, block shapes, and with several rechunks of one source merged into one graph.")
+LEVEL_NOTE = ("Trusted: Lean kernel + standard axioms; the correspondence harness incl. its observers (a sys.settrace line "
+              "tracer reading `size`, `proposed`, `max_chunk_size`, `reduce_case`, `multiplier != last_multiplier` of the "
+              "real auto_chunks call as exact fractions; a profile hook reading `sorted_candidates` of find_merge_rechunk); "
+              "NumPy getitem/concatenate on single blocks. Known finding: with previous_chunks auto chunks may exceed the "
+              "limit by array.chunk-size-tolerance (documented) - only when a previous chunk is kept verbatim.")
+TECHNIQUE = ("Lean 4 proof (loop invariants of _intersect_1d, of merge_to_number's heap loop, of the auto_chunks recursion; "
+             "induction over chunk lists / plans; float-dependent choices as universally quantified parameters) + "
+             "differential correspondence with observed floats")
 ASSUMPTIONS = [
     "sorted(cumold + cumnew, key=itemgetter(1)) on two sorted lists = stable merge, old first on ties (validated by the _intersect_1d diff)",
-    "auto_chunks enters the normalize_chunks model only through its returned tuple; its post-condition (ints >= 1 / valid tuples / byte limit) is checked on every real output, not proved",
-    "getitem/concatenate on one in-memory block are NumPy's",
+    "auto_chunks: every floating-point quantity is a parameter of the model (observed from the real call, passed exactly); "
+    "the byte-limit theorem assumes int(size)^k * itemsize * largest_block <= limit for the observed k-th root (evaluated on "
+    "every observed value; it can fail only when the float root crosses an integer from below)",
+    "find_merge_rechunk: the candidate order (sorted by log(gse)/log(bse)) is a parameter (observed; the model checks it is a "
+    "permutation of the candidates); block_size_limit/itemsize and int(a*b/c) are computed as exact fractions / floor "
+    "division - equal to the float code for power-of-two item sizes and sizes far below 2**53 (the plan diff skips other item sizes)",
+    "heapq of distinct (width, i, j) tuples = repeated extraction of the least tuple (layout irrelevant); fuel (n+2)^2 of the "
+    "modelled merge loop is never exhausted in the diff",
+    "getitem with a tuple of slices and concatenate_shaped on in-memory blocks act axis by axis (NumPy)",
 ]
-TRUSTED = ["find_merge_rechunk/find_split_rechunk/merge_to_number heap path/_balance_chunksizes are heuristics: every real plan stage is checked to be a valid chunking (hypothesis of plan_compose), the choice itself is not modelled"]
+TRUSTED = ["_balance_chunksizes is a heuristic: only sum/positivity of its result are checked",
+           "termination of auto_chunks' `while multiplier_remaining`, merge_to_number's `while nmerges > 0` and plan_rechunk's "
+           "`while True` is observed (per-case watchdog), not proved",
+           "HighLevelGraph/Task construction in _compute_rechunk: validated at API level (values, block shapes, key "
+           "distinctness of two rechunks of one source)"]
 
 BYTES = {"16B": 16, "64B": 64, "200B": 200, "1kiB": 1024, "0.5kB": 500}
 
@@ -143,18 +168,165 @@ def well_formed(t, shape, limit):
     return True
 
 
+class _AutoTracer:
+    """Observes the float-dependent quantities of the real `auto_chunks` through a line tracer (no change of /repo):
+    `size` of every recursion level, `reduce_case`, `(proposed, max_chunk_size)` whenever the `for a in sorted(autos)`
+    loop reaches `if proposed > shape[a]`, and the outcome of every `multiplier != last_multiplier`.  The marker
+    lines are located in the current source text: if they disappear the tracer raises (harness error = red)."""
+    MARKS = {"visit": "if proposed > shape[a]:", "recompute": "if multiplier != last_multiplier:"}
+
+    def __init__(self, fn):
+        import inspect
+        self.code = fn.__code__
+        lines, start = inspect.getsourcelines(fn)
+        self.lines = {}
+        for k, pat in self.MARKS.items():
+            hits = [start + i for i, l in enumerate(lines) if l.strip().startswith(pat)]
+            if len(hits) != 1:
+                raise RuntimeError(f"auto_chunks: marker line {pat!r} found {len(hits)} times")
+            self.lines[hits[0]] = k
+        self.visits, self.flags, self.sizes, self.reduce = [], [], [], None
+
+    def _local(self, frame, event, arg):
+        if event == "line":
+            k = self.lines.get(frame.f_lineno)
+            if k == "visit":
+                L = frame.f_locals
+                self.visits.append((int(L["a"]), float(L["proposed"]), float(L["max_chunk_size"])))
+            elif k == "recompute":
+                L = frame.f_locals
+                self.flags.append(bool(L["multiplier"] != L["last_multiplier"]))
+        elif event == "return":
+            L = frame.f_locals
+            if "size" in L:
+                self.sizes.append(float(L["size"]))   # innermost level returns first
+            if "reduce_case" in L:
+                self.reduce = bool(L["reduce_case"])
+        return self._local
+
+    def _global(self, frame, event, arg):
+        return self._local if frame.f_code is self.code else None
+
+    def __enter__(self):
+        import sys
+        self.prev = sys.gettrace()
+        sys.settrace(self._global)
+        return self
+
+    def __exit__(self, *a):
+        import sys
+        sys.settrace(self.prev)
+
+
+def _frac(x):
+    import math
+    if not math.isfinite(x) or x < 0:
+        return None
+    n, d = float(x).as_integer_ratio()
+    return [n, d]
+
+
+def _auto_model_diff(ctx, call, tr, res, raised):
+    """The real auto_chunks call against `autoChunks` (Model/ChunksAuto.lean) fed with the observed floats."""
+    import numpy as np
+    import dask.array.core as dac
+    chunks, shape, limit, dtype, prev = call
+    specs = []
+    for c in chunks:
+        if isinstance(c, str):
+            if c != "auto":
+                return
+            specs.append(Sym("auto"))
+        elif isinstance(c, (tuple, list)):
+            if not all(isinstance(x, (int, np.integer)) and not isinstance(x, (bool, np.bool_)) for x in c):
+                return
+            specs.append([Sym("t")] + [int(x) for x in c])
+        elif isinstance(c, (int, np.integer)) and not isinstance(c, (bool, np.bool_)):
+            specs.append(int(c))
+        else:
+            return
+    if dtype is None or dtype.hasobject or not all(isinstance(x, (int, np.integer)) for x in shape):
+        return
+    p_sx = Sym("none")
+    if prev is not None:
+        try:
+            pp = tuple(c[0] if isinstance(c, tuple) and len(c) == 1 else c for c in prev)
+            pp = dac._convert_int_chunk_to_tuple(shape, pp)
+            p_sx = [[int(x) for x in c] for c in pp]
+        except Exception:
+            return
+        if len(p_sx) != len(shape):
+            ctx.note("auto: previous_chunks of another dimensionality (outside the model)")
+            return
+    sizes = [_frac(x) for x in reversed(tr.sizes)]
+    visits = [(_frac(p), _frac(m)) for _, p, m in tr.visits]
+    if any(x is None for x in sizes) or any(p is None or m is None for p, m in visits):
+        ctx.note("auto: non-finite float observed (outside the model)")
+        return
+    model = ctx.lean(Sym("auto_chunks"), specs, [int(x) for x in shape], int(dtype.itemsize), p_sx,
+                     sizes, bool(tr.reduce), [p + m for p, m in visits], list(tr.flags))
+    if raised is not None:
+        if isinstance(raised, (ValueError, ZeroDivisionError)):
+            ctx.eq("auto_chunks (raising)", model, [Sym("raised")])
+        return
+    impl = autores_sx(res)
+    if impl is None:
+        ctx.note("auto result outside the model")
+        return
+    ctx.eq("auto_chunks vs autoChunks (observed floats)", model, impl)
+    if tr.visits:
+        ctx.branch("auto:prev-loop:%d-rounds" % min(len(tr.flags) + 1, 4))
+        if tr.reduce:
+            ctx.branch("auto:reduce-case")
+        if any(isinstance(c, tuple) and len(c) > 1 for c in res):
+            ctx.branch("auto:previous-chunks-aggregated")
+    if len(tr.sizes) > 1:
+        ctx.branch("auto:small-dims-fixed(recursion)")
+    if any(isinstance(c, float) for c in res):
+        ctx.branch("auto:round_to-multiple-of-mode")
+    if any(float(p).is_integer() for _, p, _ in tr.visits) or any(float(x).is_integer() for x in tr.sizes):
+        ctx.branch("auto:integer-valued-proposed/size")
+    if not tr.visits and tr.sizes:
+        # hypotheses of auto_noprev_within_limit evaluated on the observed values (exact integer arithmetic in Lean):
+        # every observed root is sound (size^k * itemsize * largest_block <= limit), one element fits
+        import dask
+        from dask.utils import parse_bytes
+        lim = limit if limit is not None else dask.config.get("array.chunk-size")
+        lim = parse_bytes(lim) if isinstance(lim, str) else lim
+        if isinstance(lim, (int, np.integer)):
+            lim = max(1, int(lim))
+            sound, fits = ctx.lean(Sym("auto_sound"), lim, specs, [int(x) for x in shape], int(dtype.itemsize), sizes)
+            if not sound:
+                ctx.branch("auto:observed-root-overshoots")   # float ** (1/k) above the exact root (the theorem's hypothesis fails)
+            elif fits:
+                total = int(dtype.itemsize)
+                for c in res:
+                    total *= (max(c) if isinstance(c, (tuple, list)) else int(c)) or 1
+                if total > lim:
+                    ctx.fail("auto_chunks: sound root, one element fits, but the largest block exceeds the limit "
+                             "(conclusion of auto_noprev_within_limit)", observed={"result": repr(res), "bytes": total, "limit": lim})
+                ctx.branch("auto:noprev-limit-theorem-applies")
+            else:
+                ctx.branch("auto:explicit-dims-alone-exceed-limit")
+
+
 def case_normalize(ctx, inp):
     import numpy as np
     import dask.array.core as dac
     t, shape, limit = inp["chunks"], inp["shape"], inp.get("limit")
     prev = inp.get("prev")
     dtype = np.dtype(inp.get("dtype", "i4"))
-    rec = {"depth": 0, "res": None, "exc": None, "called": False}
+    rec = {"depth": 0, "res": None, "exc": None, "called": False, "call": None}
     orig = dac.auto_chunks
+    tracer = _AutoTracer(orig)
 
     def wrapper(*a, **k):
         rec["depth"] += 1
         rec["called"] = True
+        if rec["depth"] == 1:
+            full = list(a) + [None] * (5 - len(a))
+            full[4] = k.get("previous_chunks", full[4])
+            rec["call"] = full
         try:
             r = orig(*a, **k)
         except Exception as e:
@@ -170,8 +342,9 @@ def case_normalize(ctx, inp):
     dac.auto_chunks = wrapper
     try:
         try:
-            got = dac.normalize_chunks(top_py(t), tuple(shape), limit=limit, dtype=dtype,
-                                       previous_chunks=tuple(map(tuple, prev)) if prev is not None else None)
+            with tracer:
+                got = dac.normalize_chunks(top_py(t), tuple(shape), limit=limit, dtype=dtype,
+                                           previous_chunks=tuple(map(tuple, prev)) if prev is not None else None)
             impl = [Sym("ok"), [list(map(int, c)) for c in got]]
             exc = None
         except Exception as e:
@@ -185,6 +358,8 @@ def case_normalize(ctx, inp):
         if ar is None:
             ctx.note("auto result outside the model")
     has_auto = rec["called"]
+    if rec["call"] is not None:
+        _auto_model_diff(ctx, rec["call"], tracer, rec["res"], rec["exc"])
     if rec["res"] is not None:
         # hypotheses `AutoOK` / `TupGood` of normalize_sum_nonneg / normalize_sum_pos, checked on the real result
         res_a = rec["res"]
@@ -254,7 +429,12 @@ def case_normalize(ctx, inp):
             if dtype.itemsize * max(fixed, 1) <= lim and dtype.itemsize * total > lim:
                 import dask
                 tol = dask.config.get("array.chunk-size-tolerance")
-                within = prev is not None and dtype.itemsize * total <= lim * tol * (1 + 1e-9)
+                # only the aggregation branch can exceed the limit by design: it keeps a previous chunk that is larger
+                # than `proposed` (but <= proposed * tolerance) verbatim; round_to / the shape boundary never do
+                kept = prev is not None and rec["res"] is not None and any(
+                    isinstance(c, tuple) and len(c) > 0 and isinstance(s_, str) and max(c) in p_
+                    for c, s_, p_ in zip(rec["res"], specs, prev))
+                within = kept and dtype.itemsize * total <= lim * tol * (1 + 1e-9)
                 ctx.fail("automatic chunks exceed the byte limit although one element fits"
                          + (" (previous_chunks kept, within array.chunk-size-tolerance)" if within else ""),
                          sig="normalize:auto-exceeds-limit:prev-within-tolerance" if within else None,
@@ -800,6 +980,60 @@ def _gen_normalize(ctx, rng):
     return {"chunks": t, "shape": shape, "limit": limit, "prev": prev, "dtype": rng.choice(["i4", "i4", "f8", "i1", "c16"])}
 
 
+def _gen_auto_boundary(rng):
+    """auto_chunks at its comparison boundaries: `shape[i] < size` with an integer `size` (perfect powers),
+    `c + new_chunk <= proposed` / `proposed < 1` / `c <= s` of round_to with an integer `proposed` (one auto axis),
+    and the `c // s * s` branch of round_to (previous chunks with a small mode and a few large outliers)."""
+    r = rng.random()
+    isz_dt = rng.choice([(1, "i1"), (4, "i4"), (8, "f8")])
+    if r < 0.35:
+        k = rng.choice([1, 2, 2, 3])
+        f = rng.randint(1, 6)
+        shape = [rng.choice([f, f, f + 1, max(f - 1, 0), f * 3 + 1, 50]) for _ in range(k)]
+        specs = ["auto"] * k
+        fixed = 1
+        if rng.random() < 0.5:
+            c = rng.randint(1, 4)
+            shape.append(rng.randint(c, 3 * c))
+            specs.append(c)
+            fixed = c
+        order = list(range(len(shape)))
+        rng.shuffle(order)
+        shape = [shape[i] for i in order]
+        specs = [specs[i] for i in order]
+        limit = f ** k * isz_dt[0] * fixed + rng.choice([0, 0, 0, -1, 1])
+        return {"chunks": {"k": "seq", "v": specs}, "shape": shape, "limit": max(limit, 1), "prev": None, "dtype": isz_dt[1]}
+    if r < 0.7:
+        n = rng.randint(2, 60)
+        prev_a = rand_comp(rng, n, rng.choice(["irregular", "ragged", "uniform"]))
+        cum, acc = [], 0
+        for c in prev_a:
+            acc += c
+            cum.append(acc)
+        target = max(1, rng.choice(cum + [1, 1, max(prev_a), min(prev_a)]) + rng.choice([0, 0, 0, -1, 1]))
+        c = rng.choice([1, 1, 2, 3])
+        other = rng.randint(c, 3 * c)
+        shape, specs, prev = [n, other], ["auto", c], [prev_a, rand_comp(rng, other)]
+        if rng.random() < 0.5:
+            shape, specs, prev = shape[::-1], specs[::-1], prev[::-1]
+        return {"chunks": {"k": "seq", "v": specs}, "shape": shape, "limit": target * isz_dt[0] * c, "prev": prev,
+                "dtype": isz_dt[1]}
+    # a small mode with a few large outliers: ideal_shape = mode, round_to(proposed, mode) takes `c // s * s`
+    m = rng.randint(2, 5)
+    prev_a = [m] * rng.randint(4, 10)
+    for _ in range(rng.randint(1, 2)):
+        prev_a.insert(rng.randint(0, len(prev_a)), m * rng.randint(3, 8))
+    n = sum(prev_a)
+    nd = rng.choice([1, 2])
+    shape, specs, prev = [n], ["auto"], [prev_a]
+    if nd == 2:
+        m2 = rng.randint(2, 4)
+        p2 = [m2] * rng.randint(3, 6) + [m2 * rng.randint(3, 6)]
+        shape.append(sum(p2)); specs.append("auto"); prev.append(p2)
+    target = rng.randint(m + 1, 3 * m * (2 if nd == 2 else 1) + 2) * (rng.randint(2, 9) if nd == 2 else 1)
+    return {"chunks": {"k": "seq", "v": specs}, "shape": shape, "limit": target * isz_dt[0], "prev": prev, "dtype": isz_dt[1]}
+
+
 def _gen_pair(rng, n, zeros=False):
     g = rand_comp_zeros if zeros else rand_comp
     return g(rng, n), g(rng, n)
@@ -924,6 +1158,8 @@ def generate(ctx):
     # --- normalize_chunks -------------------------------------------------------------------
     for _ in range(ctx.n(800, 15000)):
         yield "normalize", _gen_normalize(ctx, rng)
+    for _ in range(ctx.n(400, 6000)):
+        yield "normalize", _gen_auto_boundary(rng)
     # --- planner arithmetic -------------------------------------------------------------------
     for _ in range(ctx.n(400, 5000)):
         r = rng.random()
